@@ -53,6 +53,10 @@ void load(const char *filename,
                    % programSize % remainingFileSize;
   }
 
+  // Clear the DUT memory, so that everything outside the program reads as zero
+  // whatever the simulator's power-on contents are.
+  std::memset(top->hex->u_memory->memory_q.data(), 0, sizeof(top->hex->u_memory->memory_q));
+
   // Read the program (not the debug information that may follow it) into DUT memory.
   file.read(reinterpret_cast<char*>(top->hex->u_memory->memory_q.data()), programSize);
 
